@@ -20,7 +20,9 @@ TEMPLATES = {
     "bindings": V3 + 'struct A { x @0: u16, y @1: i7, }\nstruct B { z @0: f64, }\n'
                      'impl can for A {\n    id: 10,\n    device: "ecu",\n    signal x {\n        mux_count: 4,\n'
                      '        mux_signal: "y",\n    },\n    signal y {\n        endianess: "big",\n    },\n}\n'
-                     'impl can for B as Bee {\n    id: 11,\n    bus: "b1",\n    period: 20,\n}\n',
+                     'impl can for B as Bee {\n    id: 11,\n    bus: "b1",\n    period: 20,\n    mask: 18446744073709551615,\n'
+                     '    uid: 9007199254740993,\n    gain: 0.10000000000000002,\n    offset: -40,\n'
+                     '    signal z {\n        scale: 1.0000000000000002,\n        key: 123456789012345678,\n    },\n}\n',
     "services": V3 + 'struct Req { a @0: u8, }\nstruct Rsp { b @0: [u8, 3], }\n'
                      'service Svc @3 {\n    method get(Req) @0 returns Rsp,\n    method put(Rsp) @1 returns Req,\n}\n'
                      'service Other @4 {\n    method m(Req) @0 returns Req,\n}\n'
